@@ -52,6 +52,33 @@ def hirq_features(f, node):
     return hirq.features(f, node, hirq.lets(f))
 
 
+def rule_partial_iter(db, rep):
+    """R-PARTIAL-ITER: shared with C04 (an unchecked child reaches passes that panic on type errors)"""
+    # ---------------- no partial iteration over AST children in the checker
+    dropping = ("map_while", "take_while", "skip_while", "take", "step_by")
+    n_iter = 0
+    for g in db.fns.values():
+        if g.gen or not g.id.startswith(("passes::type_check::", "<passes::type_check::")):
+            continue
+        rep.fn(g)
+        for bi, t in g.calls():
+            c = t.get("f", "")
+            if not c.startswith("core::iter::traits::iterator::Iterator::"):
+                continue
+            ga = " ".join(t.get("ga", []))
+            if "ast::" not in ga:
+                continue
+            n_iter += 1
+            name = c.rsplit("::", 1)[-1]
+            if name in dropping:
+                rep.bad("R-PARTIAL-ITER", "%s|%s" % (g.id, name), "%s:%d" % (g.file, t["ln"]),
+                        "%s() over AST nodes in the type checker: elements after the cut-off are never type-checked" % name)
+    rep.check(True, "R-PARTIAL-ITER", "type_check|iterator-adaptors-over-ast", db.fn(E + "check_expr").loc,
+              "%d iterator calls over AST nodes inspected; none drops elements" % n_iter)
+    rep.floor("iterator calls over AST nodes in type_check", n_iter, 3)
+
+
+
 def run(db, tier):
     rep = Report("C09", tier, EXPLANATION, RULE)
     rep.rule("R-VISIT", "a visitor arm for a variant with AST children visits all of them, delegates to ast::walk_*, or rejects")
@@ -241,28 +268,7 @@ def run(db, tier):
         rep.check(ok, "R-MUSTCALL", key, f.loc, why + " (on every non-error path to the return)",
                   "%s can return normally without calling %s (%s)%s" % (fn_id, callee_id, why, "" if bad_ret is None else "; offending return in bb%d" % bad_ret))
 
-    # ---------------- no partial iteration over AST children in the checker
-    dropping = ("map_while", "take_while", "skip_while", "take", "step_by")
-    n_iter = 0
-    for g in db.fns.values():
-        if g.gen or not g.id.startswith(("passes::type_check::", "<passes::type_check::")):
-            continue
-        rep.fn(g)
-        for bi, t in g.calls():
-            c = t.get("f", "")
-            if not c.startswith("core::iter::traits::iterator::Iterator::"):
-                continue
-            ga = " ".join(t.get("ga", []))
-            if "ast::" not in ga:
-                continue
-            n_iter += 1
-            name = c.rsplit("::", 1)[-1]
-            if name in dropping:
-                rep.bad("R-PARTIAL-ITER", "%s|%s" % (g.id, name), "%s:%d" % (g.file, t["ln"]),
-                        "%s() over AST nodes in the type checker: elements after the cut-off are never type-checked" % name)
-    rep.check(True, "R-PARTIAL-ITER", "type_check|iterator-adaptors-over-ast", db.fn(E + "check_expr").loc,
-              "%d iterator calls over AST nodes inspected; none drops elements" % n_iter)
-    rep.floor("iterator calls over AST nodes in type_check", n_iter, 3)
+    rule_partial_iter(db, rep)
 
     # ---------------- arity / parameter types (MIR)
     f = db.fn(E + "check_expr_call")
